@@ -73,7 +73,10 @@ def build(node, log=None):
     if k == 'rev':
         return ReversePermutation(node['n'], dim=node['dim'])
     if k == 'comp':
-        return CompositeTransform([build(c) for c in node['c']])
+        # the documented argument is "an iterable of Transform objects": a list, a tuple or a one-shot generator, by turns
+        children = [build(c) for c in node['c']]
+        how = len(children) % 3
+        return CompositeTransform(children if how == 0 else ((c for c in children) if how == 1 else tuple(children)))
     if k == 'inv':
         return InverseTransform(build(node['c']))
     if k == 'ms':
